@@ -256,12 +256,12 @@ ltostr(char *restrict buf, size_t bsz, long int v,
 		static const char pads[] = " 0";
 		const char p = pads[2U - pad];
 
-		while (range-- > 0) {
+		while (range-- > 0 && bp < ep) {
 			*bp++ = p;
 		}
 	}
 	/* write the sign */
-	if (UNLIKELY(negp)) {
+	if (UNLIKELY(negp) && bp < ep) {
 		*bp++ = '-';
 	}
 
@@ -532,6 +532,9 @@ __strfdtdur(
 			*bp++ = *fp_sav;
 		} else if (UNLIKELY(spec.rom)) {
 			continue;
+		} else if (UNLIKELY(eo - bp < 24)) {
+			/* room for a long, its sign and a unit suffix */
+			break;
 		}
 		/* otherwise switch over spec.spfl */
 		switch (spec.spfl) {
